@@ -109,6 +109,21 @@ theorem negative_array_count (c : Cfg) (tid : Nat) (count : Int) (h32 : isInt32 
   unfold readObjArr; simp only [P.bind_def]
   exact FailsWith.after_nil (reads_int32 c count h32) (negative_element_count c tid count true h).1
 
+/-- more elements of a fixed-size type than an `int` can size (`count > INT_MAX / size`, repair F4):
+    invalid-size from the reader and from the skipper, before anything is allocated or moved -/
+theorem too_many_elements (c : Cfg) (tid : Nat) (count : Int) (packed : Bool) (sz : Nat)
+    (harr : isArr tid = false) (hsz : fixedSize tid = .ok sz) (h0 : 0 ≤ count) (h : count > INT_MAX / (sz : Int)) :
+    FailsWith (readObjects c tid count packed) [] .invalidSize ∧
+    FailsWith (skipObjects c tid count packed) [] .invalidSize := by
+  have hc : ¬ count < 0 := by omega
+  constructor
+  · unfold readObjects
+    simp only [P.bind_def, hc, if_false, harr, Bool.false_eq_true, hsz, h, if_true]
+    exact FailsWith.fail _
+  · unfold skipObjects
+    simp only [P.bind_def, hc, if_false, harr, Bool.false_eq_true, hsz, h, if_true]
+    exact FailsWith.fail _
+
 /-- a negative string length (names of metadata entries and properties) -/
 theorem negative_string_length (c : Cfg) (l : Int) (h32 : isInt32 l) (h : l < 0) :
     FailsWith (readString c) (le c l) .invalidSize ∧ FailsWith (skipString c) (le c l) .invalidSize := by
